@@ -19,7 +19,7 @@ MONOTONIC = ["Arc", "Concave", "Ramp", "Sigmoid", "SShape", "ZShape"]
 
 DYADIC = [-1.0, -0.5, 0.0, 0.25, 0.5, 1.0, 2.0]
 DECIMAL = [0.1, 0.3, 0.7, 0.9]
-HEIGHTS = [1.0, 0.5, 0.25, 0.7]
+HEIGHTS = [1.0, 0.5, 0.25, 0.7, 0.9995]  # the last one is within the library comparison tolerance of 1
 
 
 def positions(tier: str, seed: int) -> list[float]:
